@@ -39,8 +39,7 @@ NOTES.update({
 NOTES.update({
  "C04r9A": "not a violation as C04/C05 are read here: on a table without any blind where at most one seat has chips left after the antes, the pre-flop round is closed without being opened. Nobody acts out of turn, and C05 itself says that no betting round is opened when fewer than two players still have chips",
  "C04r9B": "not a violation as C04/C05 are read here: heads-up with the button all-in and the big blind level or ahead, the round is closed without asking the all-in button to pass and without the big blind's option; fewer than two players have chips, so no betting round needs to be opened (C05), and nobody acts out of turn (C04)",
- "C13r9A": "caught by the thorough tier of C16 (C16/total, 1 hand in 300,000), not by the quick tier of C13: the shortcut publishes one pot instead of side pots only when the first and last seat are short of the ante by the same amount and the others' antes average exactly that amount; the totals C13 compares still add up",
- "C19r9A": "caught by the thorough tier of C19 (C19/above-capacity, 8 histories in 300,000), not by the quick tier: needs a tournament in which nobody ever registers while the competition is pending, plus a hold during which a table is topped up and released players arrive",
+ "C13r9A": "not caught by the C13 check, caught by the C16 check (C16/total, quick tier since the ante tables were added): the shortcut publishes one pot instead of side pots only when the first and last seat are short of the ante by the same amount and the others' antes average exactly that amount; the totals C13 compares still add up - what is wrong is the partition into side pots, which is C16's subject",
 })
 NOTES.update({
  "C08r10A": "not covered: as C08r5B - the reserved newcomer's seat is opened by the collapse to one playing seat, i.e. other players leave between his join and the hand in question, outside the hypothesis 'other players staying put' of the deal-in clause; the hand-by-hand waiting watch cannot see it either, because the change flips the very flag (closed seat) that says who is waiting",
